@@ -187,6 +187,15 @@ def Tree.insert (t : Tree) (e : Int) : Tree × Status × Nat :=
   | .exists_ i => (t, .exists_, i)
   | .done r _ => ({ t with root := r, size := t.size + 1, next := t.next + 1 }, .success, t.next)
 
+/-- `zix_tree_insert` when the node allocation may be refused: the search comes first (a duplicate
+is EXISTS even without memory), then NO_MEM leaves the tree untouched. `none` = NO_MEM. -/
+def Tree.insertMayFail (t : Tree) (e : Int) (allocOk : Bool) : Tree × Option (Status × Nat) :=
+  match insertAux t.dups e t.next t.root with
+  | .exists_ i => (t, some (.exists_, i))
+  | .done r _ =>
+    if allocOk then ({ t with root := r, size := t.size + 1, next := t.next + 1 }, some (.success, t.next))
+    else (t, none)
+
 def Tree.remove (t : Tree) (id : Nat) : Option Tree :=
   match removeId id t.root with
   | some (r, _) => some { t with root := r, size := t.size - 1 }
